@@ -99,7 +99,9 @@ def ev_run(ctx, exe, cases):
     res = batch(exe, "ev", lines)
     fam = {}; nontriv = 0; seen = set()
     for c, r in zip(cases, res):
-        ctx.add(evaluations=1); fam[c["x"]["fam"]] = fam.get(c["x"]["fam"], 0) + 1
+        fam[c["x"]["fam"]] = fam.get(c["x"]["fam"], 0) + 1
+        if isinstance(r, dict) and r.get("skipped"): ctx.add(cases_not_run_after_repeated_watchdog_deaths=1); continue
+        ctx.add(evaluations=1)
         if isinstance(r, dict):
             k = r["crash"]; key = "%s:crash:%s:%s" % (ev_shape(c), k[0], k[1] or "driver")
             if key not in seen: seen.add(key); ctx.fail(key, "case %s\n%s" % (json.dumps(c["x"]), r["raw"][-1500:]), {"case": c})
@@ -128,7 +130,7 @@ def ev_key(c, what):
 def batch(exe, mode, lines, timeout=600):
     """one stdin line per case, one JSON answer line per case; a sanitizer abort / fault / watchdog kills the driver on
     the case after the last complete answer: that case gets {"crash": key, "raw": text} and the run resumes behind it."""
-    res = [None] * len(lines); i = 0; restarts = 0
+    res = [None] * len(lines); i = 0; restarts = 0; hangs = 0
     env = {"ASAN_OPTIONS": "detect_leaks=0:abort_on_error=0:detect_stack_use_after_return=1:allocator_may_return_null=1",
            "UBSAN_OPTIONS": "print_stacktrace=1:halt_on_error=1"}
     while i < len(lines):
@@ -146,6 +148,14 @@ def batch(exe, mode, lines, timeout=600):
         if m and key[0].startswith("exit"): key = (m.group(1),) + tuple(key[1:])
         res[i + k] = {"crash": key, "raw": raw[-3000:]}
         i += k + 1; restarts += 1
+        if key[0] in ("fault-sig14", "timeout"):
+            # the driver's watchdog: the call did not return (2 s of CPU time / 20 s of wall clock for calls that take microseconds).
+            # Each such death is reported by the caller; after 8 of them the remaining cases are not run (result {"skipped": True}):
+            # the check ends with its verdict in bounded time
+            hangs += 1
+            if hangs >= 8:
+                for j in range(i, len(lines)): res[j] = {"skipped": True}
+                return res
         if restarts > 200: raise common.Infra("too many driver crashes; last:\n" + raw[-2000:])
     return res
 
@@ -169,6 +179,7 @@ def set_run(ctx, exe, cases):
         if key in seen: return
         seen.add(key); ctx.fail(key, "case %s\n%s\nexpected %s\ngot %s" % (json.dumps(c["x"]), text, json.dumps(c["exp"]), g), {"case": c})
     for c, r in zip(cases, res):
+        if isinstance(r, dict) and r.get("skipped"): ctx.add(cases_not_run_after_repeated_watchdog_deaths=1); continue
         ctx.add(evaluations=1); x = c["x"]; e = c["exp"]
         fn = "tp_settings_def" if x["fmt"] == "def" else "tp_settings_load_" + x["fmt"]
         if isinstance(r, dict):
@@ -229,6 +240,9 @@ def rr_stress(ctx, exe):
         rc, out = common.sh([exe, "rr", str(n), str(callers), "250" if ctx.quick else "1500"], timeout=60,
                             env={"ASAN_OPTIONS": "detect_leaks=0"})
         m = re.search(r"^\{.*\}$", out, re.M)
+        if rc == 124:       # the callers of the code under test did not come back within the rig's 60 s (a run takes < 2 s): a verdict, not a rig failure
+            ctx.fail("tp_thread_get_rr:concurrent-callers:timeout", "%d workers, %d concurrent callers: no result within 60 s\n%s" % (n, callers, out[-1500:]), {"workers": n, "callers": callers})
+            break
         if rc != 0 or not m: raise common.Infra("x08_drv rr rc=%s\n%s" % (rc, out[-1500:]))
         g = json.loads(m.group(0)); tot += g["total"]
         if (g["pvt"] or g["oob"]) and worst is None: worst = (n, callers, g)
@@ -360,6 +374,13 @@ def life(ctx, exe, d, rnd=0):
             except Exception: break                                    # torn last line of a crashed run
         if rc != 0:
             key = common.san_key(out)
+            if rc == 124 or (key and key[0] == "fault-sig14"):
+                # the driver's watchdog (10 s of CPU time / 60 s of wall clock for a script that takes a fraction of a second) or the rig's
+                # timeout: a pool call did not return.  A verdict; after two of them the remaining scripts are not run (bounded time)
+                ck = "life:timeout:%s" % kind
+                if ck not in crashed: crashed.add(ck); ctx.fail(ck, "script kind %s: the scripted execution did not end\n%s" % (kind, out[-2000:]), {"script": L})
+                if len([c_ for c_ in crashed if c_.startswith("life:timeout:")]) >= 2: break
+                continue
             fn = re.search(r"in (\w+) \S*src/threadpool/threadpool\w*\.c", out)
             if key and fn:
                 ck = "life:crash:%s:%s" % (key[0], fn.group(1))
